@@ -806,6 +806,10 @@ impl LdapConnAsync {
                                     self.searchmap.remove(&id);
                                     let mut msgmap = self.msgmap.lock().expect("msgmap mutex (caller gone)");
                                     msgmap.1.remove(&id);
+                                    #[cfg(ldap3_verif)]
+                                    crate::verif::id_event("IdRelease", id, msgmap.0, "caller-gone");
+                                    #[cfg(ldap3_verif)]
+                                    crate::verif::drv_event("DrvOp", id, verif_kind, verif_target, true, &crate::verif::set(&msgmap.1), &crate::verif::keys(&self.resultmap), &crate::verif::keys(&self.searchmap));
                                     continue;
                                 }
                             }
@@ -823,6 +827,8 @@ impl LdapConnAsync {
                                     let mut msgmap = self.msgmap.lock().expect("msgmap mutex (abandon)");
                                     msgmap.1.remove(&id);
                                     msgmap.1.remove(&msgid);
+                                    #[cfg(ldap3_verif)]
+                                    crate::verif::id_event("IdRelease", msgid, msgmap.0, "abandon-target");
                                     #[cfg(ldap3_verif)]
                                     crate::verif::id_event("IdRelease", id, msgmap.0, "abandon");
                                 },
@@ -910,6 +916,8 @@ impl LdapConnAsync {
                             // The Search is over, its message ID can be reused.
                             let mut msgmap = self.msgmap.lock().expect("msgmap mutex (search done)");
                             msgmap.1.remove(&id);
+                            #[cfg(ldap3_verif)]
+                            crate::verif::id_event("IdRelease", id, msgmap.0, "done");
                         }
                     } else if let Some(tx) = self.resultmap.remove(&id) {
                         #[cfg(ldap3_verif)]
